@@ -254,7 +254,13 @@ def shrink(case):
     return iter(())
 
 
-KNOWN_PREDICATES = {}
+def _reserved_prefix(case, f):
+    """a namespace prefix of the form ns<digits>: ElementTree reserves it for the prefixes it generates and refuses to
+    register it, so the dict read from such a document cannot be written (recorded finding)"""
+    return re.search(r"xmlns:ns\d+=", case.get("xml", "")) is not None
+
+
+KNOWN_PREDICATES = {"C11-reserved-namespace-prefix": _reserved_prefix}
 
 
 def name_key(rng):
@@ -454,6 +460,15 @@ def run(ctx):
             ctx.oracle_fail(c, r[0], r[1])
         nt = doc["ns"] != "none" or "\n      " in xml or 'id="' in xml
         ctx.count(("d", xml), nt, "doc:" + doc["ns"], sample={"xml": xml} if nt and len(ctx.samples) < 3 else None)
+    # a prefix of the form ns<digits> (a legitimate prefix; ElementTree reserves the form for the prefixes it generates)
+    for pfx in ("ns0", "ns12"):
+        doc = gen_doc(rng)
+        doc["ns"], doc["prefix"] = "prefixed", pfx
+        c = {"kind": "doc", "xml": render(doc), "ns": "prefixed", "prefix": pfx}
+        r = oracle(c)
+        if r:
+            ctx.oracle_fail(c, r[0], r[1])
+        ctx.count(("d", c["xml"]), True, "doc:reserved-prefix")
     for _ in range(ctx.n(400, 10000)):
         t = gen.dom_tree(rng, max_nodes=rng.choice([4, 12]), max_depth=3, int_keys=0.0, list_p=0.0, key=name_key, leaf=xml_leaf)
         dicts.append(t)
